@@ -272,26 +272,21 @@ def encode(input, errors="strict", encoding=None):
 
 
 def _bytes2int(bytes):
-    # Helper: convert an 8 bit string into an ``int``.
-    i = 0
-    for byte in bytes:
-        i = (i << 8) + ord(byte)
-    return i
+    # Helper: convert a byte string into an ``int`` (a leading 1 byte keeps
+    # leading zero bytes).
+    return int.from_bytes(b"\x01" + bytes, "big")
 
 
 def _int2bytes(i):
-    # Helper: convert an ``int`` into an 8-bit string.
-    v = []
-    while i:
-        v.insert(0, chr(i & 0xFF))
-        i >>= 8
-    return "".join(v)
+    # Helper: convert an ``int`` back into the byte string.
+    return i.to_bytes((i.bit_length() + 7) // 8, "big")[1:]
 
 
 class IncrementalDecoder(codecs.IncrementalDecoder):
     def __init__(self, errors="strict", encoding=None, force=True):
         self.decoder = None
         self.encoding = encoding
+        self._encoding = encoding  # as given, for reset()
         self.force = force
         codecs.IncrementalDecoder.__init__(self, errors)
         # Store ``errors`` somewhere else,
@@ -305,7 +300,7 @@ class IncrementalDecoder(codecs.IncrementalDecoder):
             result = self.decode(part, False)
             if result:
                 yield result
-        result = self.decode("", True)
+        result = self.decode(b"", True)
         if result:
             yield result
 
@@ -351,6 +346,8 @@ class IncrementalDecoder(codecs.IncrementalDecoder):
     def reset(self):
         codecs.IncrementalDecoder.reset(self)
         self.decoder = None
+        # (not the encoding detected for the previous input)
+        self.encoding = self._encoding
         self.buffer = b""
         self.headerfixed = False
 
@@ -376,14 +373,18 @@ class IncrementalDecoder(codecs.IncrementalDecoder):
             )
         else:
             state = (self.encoding, self.buffer, self.headerfixed, False, None)
-        return ("", _bytes2int(marshal.dumps(state)))
+        return (b"", _bytes2int(marshal.dumps(state)))
 
     def setstate(self, state):
-        state = _int2bytes(marshal.loads(state[1]))  # ignore buffered input
+        if not state[1]:
+            # the state of a new decoder (as io.TextIOWrapper sets it)
+            self.reset()
+            return
+        state = marshal.loads(_int2bytes(state[1]))  # ignore buffered input
         self.encoding = state[0]
         self.buffer = state[1]
         self.headerfixed = state[2]
-        if state[3] is not None:
+        if state[3]:
             self.decoder = _codecinfo(self.encoding).incrementaldecoder(self._errors)
             self.decoder.setstate(state[4])
         else:
@@ -394,6 +395,7 @@ class IncrementalEncoder(codecs.IncrementalEncoder):
     def __init__(self, errors="strict", encoding=None):
         self.encoder = None
         self.encoding = encoding
+        self._encoding = encoding  # as given, for reset()
         codecs.IncrementalEncoder.__init__(self, errors)
         # Store ``errors`` somewhere else,
         # because we have to hide it in a property
@@ -445,6 +447,8 @@ class IncrementalEncoder(codecs.IncrementalEncoder):
     def reset(self):
         codecs.IncrementalEncoder.reset(self)
         self.encoder = None
+        # (not the encoding detected for the previous input)
+        self.encoding = self._encoding
         self.buffer = ""
 
     def _geterrors(self):
@@ -466,12 +470,16 @@ class IncrementalEncoder(codecs.IncrementalEncoder):
         return _bytes2int(marshal.dumps(state))
 
     def setstate(self, state):
-        state = _int2bytes(marshal.loads(state))
+        if not state:
+            # the state of a new encoder
+            self.reset()
+            return
+        state = marshal.loads(_int2bytes(state))
         self.encoding = state[0]
         self.buffer = state[1]
-        if state[2] is not None:
+        if state[2]:
             self.encoder = _codecinfo(self.encoding).incrementalencoder(self._errors)
-            self.encoder.setstate(state[4])
+            self.encoder.setstate(state[3])
         else:
             self.encoder = None
 
